@@ -295,6 +295,11 @@ def check_literals(ck, eng_module, n=None):
         else:
             model['disagree'] += 1
             disagreements.append({'literal': text, 'request': lines[R * j], 'model': a_lit, 'python': shown})
+            # failing-input search: the modelled (unchanged) code prints this literal exactly, the real code no longer does
+            if a_lit.startswith('ok ') and preserves(i, f, a_lit[3:]) and not (outcome[0] == 'ok' and preserves(i, f, outcome[1])):
+                ck.violation(P + 'literal inside the exact bands of the modelled code is no longer printed exactly',
+                             {'call': '_handle_literal(float(%r))' % text, 'literal': text, 'observed': shown, 'modelled_code_prints': a_lit[3:]},
+                             'Number literal %s: the modelled _handle_literal prints %s, the real one now gives %s' % (text, a_lit[3:], shown))
         if dom:
             if a_ren == shown: model['render_agree'] += 1
             else: model['render_differs'] += 1
